@@ -165,8 +165,39 @@ def m_tn_node(ip, args, kw):
     if g is not None and 'node0' in g and not g.get('node0_built'):
         g['node0_built'] = True
         g['node0_arg'] = args[0]
+        check_flattened(ip, 'initial-state', args[0], g['initial_state'], g['hs_dim'])
         return g['node0']
     return uf('tn_Node', args[0])
+
+
+def check_flattened(ip, what, got, source, hs):
+    """the vector a contraction starts from is the ROW-MAJOR flattening of the caller's matrix (plain reshape to hs_dim**2): stated where
+    the property is about the values (C02, C03, C08); the other users of this scenario do not depend on it"""
+    if getattr(getattr(ip, 'target', None), 'prop', None) not in ('C02', 'C03', 'C08'):
+        return
+    import ast as _ast
+    from pyvc.lib import binop
+    n2 = binop(ip, _ast.Pow(), hs, 2)
+    want = uf('meth_reshape', source, n2)
+    gz = to_z3(got) if is_z3(got) else None
+    if gz is not None and z3.is_app(gz) and gz.decl().name() == 'setattr_shape' and gz.num_args() >= 1:
+        gz = gz.arg(0)          # `x.shape = (1, .., hs**2)`: singleton bond legs in front, the same entries in the same order
+    if gz is None or not z3.is_app(gz):
+        raise Unsupported('the array handed to tn.Node is not a term this contract can read')
+    name = gz.decl().name()
+    a = [gz.arg(i) for i in range(gz.num_args())]
+    src = to_z3(source)
+    # the ways of writing the row-major flattening of a matrix (all the same values in the same order)
+    row_major = (name in ('meth_reshape', 'lib_numpy_reshape') and len(a) == 2 and a[0].eq(src) and (a[1].eq(to_z3(n2)) or (z3.is_int_value(a[1]) and a[1].as_long() == -1))) \
+        or (name in ('meth_flatten', 'meth_ravel', 'lib_numpy_ravel') and len(a) == 1 and a[0].eq(src))
+    # ... and of NOT doing so: an explicit memory order, or a transposed / conjugated source
+    def mentions(t, names):
+        return z3.is_app(t) and (t.decl().name() in names or any(mentions(t.arg(i), names) for i in range(t.num_args())))
+    wrong = any(x.sort() == z3.StringSort() for x in a[1:]) or mentions(gz, ('attr_T', 'meth_transpose', 'meth_conjugate', 'meth_swapaxes', 'lib_numpy_transpose'))
+    if not row_major and not wrong:
+        raise Unsupported('the flattening of the %s handed to tn.Node is written in a form this contract does not recognise: %s' % (what, gz))
+    ok = z3.BoolVal(bool(row_major))
+    ip.prove('call/tn.Node/%s-flattened-row-major' % what, ok, {'handed to tn.Node': repr(got), 'required': repr(want)})
 
 
 def _opaque_getitem(ip, o, idx):
